@@ -46,7 +46,7 @@ def e2eVerdict (s : Bytes) (aS bS : List Bytes) (hx : String) (out : List String
 /-- `esc <targethex> <svcs> => web=<entry>:<tok> http=<entry>:<tok>`: the same request line through the REAL root
     `grpcbridge.NewWebBridge` as gRPC-Web (Content-Type application/grpc-web+proto ⇒ GRPCWebBridge ⇒ RouteGRPC) and as a
     transcoded POST (⇒ TranscodedHTTPBridge ⇒ ServiceRouter.RouteHTTP); target "a" lists `svcs`, always pooled.
-    Specification (property text, fix D38): BOTH entries route by the path as written on the request line (the bytes before
+    Specification (property text, fix D39): BOTH entries route by the path as written on the request line (the bytes before
     the first '?') — owner of the service that path names, method string `"/" ++ strip path` — and net/http rejects a
     line whose path has a malformed escape.  Model: `routeGRPC … (webName u)` / `routeHTTPsvc … POST u` on `parseTarget`. -/
 def escVerdict (t : Bytes) (svcs : List Bytes) (out : List String) : String :=
